@@ -9,6 +9,8 @@ mod state;
 mod statistics;
 #[cfg(test)]
 mod test;
+#[cfg(feature = "verif-hooks")]
+mod verif;
 
 use crate::bus_listener::BusListener;
 use crate::conn::ConnectionEvent;
@@ -60,6 +62,8 @@ pub use error::BrokerShutdown;
 pub use handle::BrokerHandle;
 #[cfg(feature = "statistics")]
 pub use statistics::BrokerStatistics;
+#[cfg(feature = "verif-hooks")]
+pub use verif::VerifSnapshot;
 
 const FIFO_SIZE: usize = 32;
 
@@ -262,6 +266,11 @@ impl Broker {
             #[cfg(feature = "statistics")]
             ConnectionEvent::TakeStatistics(sender) => {
                 let _ = sender.send(self.statistics.take());
+            }
+
+            #[cfg(feature = "verif-hooks")]
+            ConnectionEvent::VerifSnapshot(sender) => {
+                let _ = sender.send(self.verif_snapshot());
             }
         }
     }
